@@ -1277,8 +1277,17 @@ func allConstArgs(args []Val) bool {
 				return false
 			}
 		case SliceVal:
-			if !(x.Arr == nil && x.IsNil.IsTrue()) {
+			if x.Arr == nil && x.IsNil.IsTrue() {
+				continue
+			}
+			if !x.Len.Const || x.Arr == nil {
 				return false
+			}
+			for i := 0; i < int(x.Len.U); i++ {
+				t, ok := x.Arr.Elems[x.Off+i].V.(*Term)
+				if !ok || !t.Const {
+					return false
+				}
 			}
 		default:
 			return false
